@@ -3,7 +3,8 @@ from .fam_df import C05
 from .fam_api import C01, C03, C04, C10, C11
 from .fam_esc import C19
 from .fam_rf import C02, C06, C12
+from .fam_adapters import C08, C09
 
 REGISTRY = {}
-for cls in (C05, C01, C03, C04, C10, C11, C19, C02, C06, C12):
+for cls in (C05, C01, C03, C04, C10, C11, C19, C02, C06, C12, C08, C09):
     REGISTRY[cls.pid] = cls
